@@ -112,7 +112,7 @@ fn core_only_model(r: &Recipe) -> bool {
                             }
                         }
                         if let Some(q) = &c.qty {
-                            if matches!(q.val, Val::Text(t) if t.chars().next().map(|c| c.is_ascii_digit()).unwrap_or(false)) {
+                            if q.unit.is_none() && matches!(q.val, Val::Text(t) if t.chars().next().map(|c| c.is_ascii_digit()).unwrap_or(false)) {
                                 return false;
                             }
                         }
